@@ -43,7 +43,11 @@ META = {
                "duplicate flag), free framing-error flag on non-leaf COMPAREs",
                "(B) N <= 3 units (thorough 4), initial short address none or 0..63 symbolic, <= 2 clash "
                "rounds before the fairness assumption, permitted sets: all 64 / empty / {k} / {k,k'} / "
-               "4 concrete addresses, readdress x dry_run"],
+               "4 concrete addresses, readdress x dry_run",
+               "faulty unit (N <= 3): does not store the address / stores it but never answers VERIFY SHORT "
+               "ADDRESS (with three units the other two may clash afterwards)",
+               "units still in initialisation state (enabled or withdrawn, arbitrary random address) from an "
+               "earlier unfinished session: per unit symbolic for N <= 2, all units for N = 3"],
     "stubs": ["isinstance/int shims", "dali.sequences._find_next replaced by its contract in (B)"],
     "outside": ["buses of more than 4 units", "two simultaneous answers received as one clean frame",
                 "gear that violate IEC 62386-102 other than by not storing the programmed address"],
